@@ -19,10 +19,11 @@ META = {
                    "pair; plus CrossHair conditions on unbounded integers",
     "bounds": {"int64": "|i| < 2**63 (bit-vector)", "big": "|i| >= 2**1024 (SMT Int)", "float": "all finite binary64 incl. subnormals, -0.0",
                "multipleOf exact sub-domain": ["float / power-of-two float, no underflow, incl. overflow to inf",
-                                               "int (<= 2**53) / power-of-two float", "float (< 2**63) % int (<= 2**53)",
+                                               "int (<= 2**53) / power-of-two float",
                                                "float / float whenever the quotient is exactly representable",
-                                               "int / int: |x| < 2**32, d < 2**16 in E2, unbounded in E1"]},
-    "outside": ["mixed int/float operations with 2**63 <= |i| < 2**1024", "NaN and infinities (not JSON)"],
+                                               "int / int: unbounded, in E1"]},
+    "outside": ["mixed int/float operations with 2**63 <= |i| < 2**1024", "NaN and infinities (not JSON)",
+                "the verdict of float % int (fp.rem on binary64: unknown after 900 s in both solvers); only its exception freedom is decided"],
     "stubs": ["Fraction(a)/Fraction(b).denominator != 1 is modelled as the exact predicate 'a/b is not an integer' (Fraction is exact by construction)",
               "validator.is_type: the real TYPE_CHECKER is consulted on a representative of each kind"],
     "assumptions": ["numkern's model of Python's operators on int/float (validated concretely against the interpreter on the official "
